@@ -267,7 +267,7 @@ fn prop_cfg(prop: Prop) -> Option<PropCfg> {
         ) },
         Prop::C06 | Prop::C15 | Prop::C19 => {
             let (rule, level): (&'static str, &'static str) = match prop {
-                Prop::C06 => ("non-trivial = more than 20 broker steps and at least one call value, event or channel item was checked end to end. 2-4 real clients (versions 1.14-1.20, unbounded / bounded(1,2,4,16) core::channel transports or the simulated pipe) each running 1-3 application tasks that interpret random closed programs over the public API (objects, services with server tasks, proxies, calls awaited/dropped/cancelled, events, channels in every state incl. unbind/bind/claim, sessions with producer and consumer, bus listeners, discoverers, lifetimes, sync); distinct = distinct broker linearisation signatures", "exploration"),
+                Prop::C06 => ("non-trivial = more than 20 broker steps and at least one call value, event or channel item was checked end to end. 2-4 real clients (versions 1.14-1.20, unbounded / bounded(1,2,4,16) core::channel transports or the simulated pipe) each running 1-3 application tasks that interpret random closed programs over the public API (objects, services with server tasks, proxies, calls awaited/dropped/cancelled, events, channels in every state incl. unbind/bind/claim, sessions with producer and consumer, bus listeners, discoverers, lifetimes, introspection register/submit/query, sync); distinct = distinct broker linearisation signatures", "exploration"),
                 Prop::C15 => ("non-trivial = more than 20 broker steps and the planned termination cause was actually applied / the injected fault actually fired. The C06 programs plus one termination of a victim client per run: transport error or EOF injected at transport operation index k (k = a per-run fraction of the victim's operation count in a fault-free execution of the same plan), or Handle::shutdown / all handles dropped / broker shutdown / shutdown_connection applied when the victim's transport has performed k operations; 12 (quick) or 96 (thorough) (cause, k, schedule) variants per generated program; non-trivial when the broker processed more than 20 requests; distinct = distinct broker linearisation signatures", "fault_enumeration"),
                 _ => ("non-trivial = more than 20 broker steps and at least one discoverer, lifetime or find result was compared with the bus state. Mutator tasks create/destroy objects and services over 3x3 UUID pools (re-creation under the same UUID, partial service sets) while observer tasks run discoverers with 1-3 entries of all four kinds, restart them, consume events at random rates, and use find_object / wait_for_object / lifetime scopes; views are compared with the bus state at quiescence; non-trivial when the broker processed more than 20 requests; distinct = distinct broker linearisation signatures", "exploration"),
             };
@@ -356,7 +356,7 @@ fn expected_probes(prop: Prop) -> &'static [&'static str] {
         Prop::C11 => &["wrong-direction-message", "handler-returned-err", "gate-closed", "input-from-removed-connection", "introspection-reply-unknown-serial", "introspection-reply-from-wrong-connection", "call-duplicate-serial", "subscribe-without-serial", "create-service2-bad-info"],
         Prop::C12 => &["handshake-ok", "handshake-incompatible", "gate-closed", "cross-epoch-payload", "call2-downgraded-for-old-callee", "old-callee-abort-suppressed", "subscribe-all-not-supported", "payload-at-depth-limit"],
         Prop::C14 => &["short-read", "short-write", "pipe-full-backpressure", "flush-completed", "frame>=8KiB-backpressure-boundary", "frame>=64KiB-reserve-step", "packetizer-spare-interface", "packetizer-extend-interface", "single-byte-chunks", "buffered-in-front", "transport-pair-run"],
-        Prop::C06 => &["call-served", "call-value-checked", "call-dropped-at-once", "call-cancelled-mid-flight", "call-refused-or-aborted", "promise-held-until-teardown", "event-received", "proxy-dropped", "channel-session", "channel-item-delivered", "claim-ok", "claim-fails", "claim-cancelled", "establish-cancelled", "unbound-end-bound", "receiver-closed-early", "send-refused", "listener-started", "bus-event-received", "discoverer-created", "object-found", "lifetime-bound", "event-awaited", "bus-event-awaited", "held-promise-aborted", "receiver-closed-polled-while-open", "lost-wakeup-probe-evaluated", "abort-oracle-evaluated"],
+        Prop::C06 => &["call-served", "call-value-checked", "call-dropped-at-once", "call-cancelled-mid-flight", "call-refused-or-aborted", "promise-held-until-teardown", "event-received", "proxy-dropped", "channel-session", "channel-item-delivered", "claim-ok", "claim-fails", "claim-cancelled", "establish-cancelled", "unbound-end-bound", "receiver-closed-early", "send-refused", "listener-started", "bus-event-received", "discoverer-created", "object-found", "lifetime-bound", "event-awaited", "bus-event-awaited", "held-promise-aborted", "receiver-closed-polled-while-open", "lost-wakeup-probe-evaluated", "abort-oracle-evaluated", "introspection-answered-by-peer", "introspection-answered-locally", "introspection-unavailable"],
         Prop::C15 => &["call-served", "channel-session", "listener-started", "discoverer-created", "conn-removed-with-state"],
         Prop::C19 => &["discoverer-created", "discoverer-checked", "discoverer-restarted", "object-found", "object-not-found", "lifetime-bound", "lifetime-checked", "lifetime-ended-observed", "recreate-after-destroy", "object-cascade-2+-services", "discoverer-event-awaited"],
     }
